@@ -105,12 +105,13 @@ Definition can_add (old : list route) (v : route) : bool :=
   | o :: _ => Nat.eqb (rt_src o) (rt_src v)
   end.
 
-(** [EPanic]: a Go run-time panic (only the transcribed tree of C06/Tree.v can produce it) *)
-Inductive err := EInvalidPath | EConstraint | EDelete | EPanic.
+(** [EPanic]: a Go run-time panic (only the transcribed tree of C06/Tree.v can produce it);
+    [ELoad]: the rule-set processor refused the rule set before the repository saw it *)
+Inductive err := EInvalidPath | EConstraint | EDelete | EPanic | ELoad.
 
 Definition err_eqb (a b : err) : bool :=
   match a, b with
-  | EInvalidPath, EInvalidPath | EConstraint, EConstraint | EDelete, EDelete | EPanic, EPanic => true
+  | EInvalidPath, EInvalidPath | EConstraint, EConstraint | EDelete, EDelete | EPanic, EPanic | ELoad, ELoad => true
   | _, _ => false
   end.
 
@@ -239,7 +240,10 @@ Definition find_rule (faithful : bool) (d : db) (path : str) (m : route -> bool)
     of a rule at one route" (instantiated below with the abstract index, and in
     C06/Tree.v with the transcribed radix tree) *)
 
-Inductive op := Add (s : nat) (ds : list rdef) | Update (s : nat) (ds : list rdef) | Delete (s : nat).
+(** [Refused s]: a creation or update of the rule set of [s] that
+    ruleset_processor_impl.go does not hand to the repository (unsupported rule-set
+    version, a rule the factory cannot create) *)
+Inductive op := Add (s : nat) (ds : list rdef) | Update (s : nat) (ds : list rdef) | Delete (s : nat) | Refused (s : nat).
 
 Definition from_src (s : nat) (r : rule) : bool := Nat.eqb (r_src r) s.
 
@@ -337,6 +341,7 @@ Definition gstep (st : grepo) (o : op) : grepo * option err :=
     | inr e => (st, Some e)
     | inl d => ({| known := filter (fun r => negb (mem_rule r applicable)) (known st); index := d |}, None)
     end
+  | Refused _ => (st, Some ELoad)
   end.
 
 Definition grun_from (st : grepo) (ops : list op) : grepo :=
